@@ -186,7 +186,7 @@ func sample(r *Rng, xs [][]byte, n int) [][]byte {
 
 // ---- text generators ----
 
-var fieldNames = []string{"a", "b", "name", "k8s.pod", "x y", "", "A", "é"}
+var fieldNames = []string{"a", "b", "name", "k8s.pod", "x y", "", "A", "é", "{n", " n", "n=", "`n", "n\""}
 
 func genValue(r *Rng) string {
 	switch r.Intn(14) {
@@ -275,7 +275,8 @@ func genFieldsBin(r *Rng) []byte {
 		if i%2 == 0 {
 			v = fieldNames[r.Intn(len(fieldNames))]
 		} else {
-			v = r.PickStr("", "v1", "with,comma", "k=v", "sp ace", "q\"uote", "\x80\xff", strings.Repeat("w", r.PickInt(1, 200, 255)))
+			v = r.PickStr("", "v1", "with,comma", "k=v", "sp ace", "q\"uote", "\x80\xff", strings.Repeat("w", r.PickInt(1, 200, 255)),
+				" lead", "trail ", "`bq`", "br}", "{br", "\"", strings.Repeat("\"", 200))
 		}
 		b = append(b, byte(len(v)))
 		b = append(b, v...)
@@ -439,9 +440,9 @@ func generate(c *Ctx) []Replay {
 	add("qr", append([]byte{0, 0, 0, 0, 0, 0, 0, 1}, huge...))         // C13_total_qr_refuted
 	add("apile", append([]byte{0, 0, 0, 0, 0, 0, 0, 1}, huge...))      // C13_total_apile_refuted
 	add("leu", nil, append([]byte{0x20, 0, 0, 0, 0, 0, 0, 0, 1}, huge...)) // C13_total_le_refuted
-	add("escape", []byte("\xef\xbf\xbd"))                              // C13_total_escape_refuted
+	add("escape", []byte("\xef\xbf\xbd"))                              // C13_total_escape_unadvanced_refuted: the code returns
 	expanding := []byte("a=\"" + strings.Repeat("\x80", 86) + "\"")
-	add("fromkv", expanding) // C13_stored_wf_refuted
+	add("fromkv", expanding) // C13_stored_wf_raw_limit_refuted: the code refuses the text
 	add("wp", encWp("t=1", string(expanding), []apiEv{{1, "m", "", ""}}).buf)
 	add("stored-e2e", expanding)
 	add("stored-e2e", []byte("a=b,c=\"d,e\""))
@@ -576,7 +577,7 @@ func generate(c *Ctx) []Replay {
 		add("askv", f)
 	}
 	for i := 0; i < c.N(15); i++ {
-		f := r.Bytes(r.Range(0, 8), []byte{0, 1, 2, 3, 'a', 'b', ',', '='})
+		f := r.Bytes(r.Range(0, 8), []byte{0, 1, 2, 3, 'a', 'b', ',', '=', '"', ' ', '`', '{', '}'})
 		add("check", f)
 		add("value", f, []byte(r.PickStr("a", "", "ab")))
 		add("askv", f)
@@ -597,7 +598,7 @@ func generate(c *Ctx) []Replay {
 		if r.Chance(1, 4) {
 			flds = mutateFieldsBin(r, flds)
 		}
-		msg := []byte(r.PickStr("", "msg", "q\"uote\n", "caf\xc3\xa9\x80"))
+		msg := []byte(r.PickStr("", "msg", "q\"uote\n", "caf\xc3\xa9\x80", "r\xef\xbf\xbdx\x80"))
 		tl := []byte(r.PickStr("", "", "a=b,c=d"))
 		if fmtEvalOk([]byte(f), msg, tl) {
 			add("fmteval", []byte(f), msg, flds, tl)
